@@ -65,7 +65,21 @@ inline void FillDraco(const Geo &g, draco::PointCloud *pc, draco::Mesh *mesh) {
   // attribute is added, tagged MESH_VERTEX_ATTRIBUTE and deleted again; attributes whose element type is the default
   // (per corner) are then added without an explicit SetAttributeElementType call, as file loaders do. The resulting
   // mesh must be the same as one built directly.
-  const bool with_history = mesh && !g.atts.empty() && (g.npoints + g.faces.size() * 7 + g.atts.size() * 13) % 3 == 0;
+  const uint64_t hsel = g.npoints + g.faces.size() * 7 + g.atts.size() * 13;
+  const bool with_history = mesh && !g.atts.empty() && hsel % 3 == 0;
+  // Second history (meshes and point clouds, one geometry in five): two or three scratch attributes of various types
+  // are added *first* and deleted (DeleteAttribute(0), repeatedly) after the real attributes are in place, so that
+  // every real attribute changes its id twice or more and the per-type attribute lists are renumbered repeatedly.
+  const int front_scratch = (!g.atts.empty() && hsel % 5 == 1) ? 2 + static_cast<int>(hsel % 2) : 0;
+  for (int s = 0; s < front_scratch; ++s) {
+    const GeometryAttribute::Type st[] = {GeometryAttribute::GENERIC, GeometryAttribute::TEX_COORD, GeometryAttribute::NORMAL};
+    GeometryAttribute sa;
+    sa.Init(st[s % 3], nullptr, 1, draco::DT_UINT8, false, 1, 0);
+    std::unique_ptr<draco::PointAttribute> sp(new draco::PointAttribute(sa));
+    sp->SetIdentityMapping();
+    sp->Reset(g.npoints);
+    pc->AddAttribute(std::move(sp));
+  }
   for (size_t a = 0; a < g.atts.size(); ++a) {
     const Attr &at = g.atts[a];
     if (with_history && a + 1 == g.atts.size()) {
@@ -95,6 +109,7 @@ inline void FillDraco(const Geo &g, draco::PointCloud *pc, draco::Mesh *mesh) {
     pc->attribute(id)->set_unique_id(at.unique_id);
     if (mesh && !(with_history && at.elem == draco::MESH_CORNER_ATTRIBUTE)) mesh->SetAttributeElementType(id, static_cast<draco::MeshAttributeElementType>(at.elem));
   }
+  for (int s = 0; s < front_scratch; ++s) pc->DeleteAttribute(0);
 }
 inline std::unique_ptr<draco::Mesh> ToMesh(const Geo &g) {
   std::unique_ptr<draco::Mesh> m(new draco::Mesh());
